@@ -3,6 +3,8 @@ package main
 import (
 	"encoding/json"
 	"fmt"
+	"io"
+	"log"
 	"os"
 	"runtime/debug"
 	"time"
@@ -10,6 +12,7 @@ import (
 
 func main() {
 	debug.SetGCPercent(400)
+	log.SetOutput(io.Discard) // x/did logs a warning for every unknown key type through the std logger
 	if len(os.Args) < 2 {
 		fmt.Fprintln(os.Stderr, "usage: panasim <smoke|check|worker|replay|selftest> ...")
 		os.Exit(2)
